@@ -598,6 +598,40 @@ fn run<V: Tv>(case: &Case, obs: &mut Obs) -> Result<(), Failure> {
     let mut models: Vec<MM> = vec![MM::default()];
     let mut cx = Ctx { big: case.big_endian, back, has_backing: case.backing.is_some(), deferred: Vec::new(), loads: 0, perm_queries: 0 };
 
+    // equality implies identical loads - also between memories of opposite byte order: a twin
+    // over the same backing bytes but the other endianness may only compare equal to memory 0 if
+    // no load tells them apart (two adjacent backing bytes that differ do)
+    if let Some(sections) = &case.backing {
+        let other = if case.big_endian { Endian::Little } else { Endian::Big };
+        let mut b2 = backing::Memory::new(other.clone());
+        let built = guard(|| {
+            for s in sections {
+                if s.data.is_empty() || s.addr.checked_add(s.data.len() as u64).is_none() {
+                    continue;
+                }
+                b2.set_memory(s.addr, s.data.clone(), MemoryPermissions::from_bits_truncate(s.perms));
+            }
+        });
+        if built.is_ok() {
+            let twin: Memory<V> = Memory::new_with_backing(other, RC::new(b2));
+            match guard(|| mems[0] == twin) {
+                Ok(true) => {
+                    obs.class("eq-true-across-byte-orders");
+                    let pair = cx.back.iter().find(|(a, d)| a.checked_add(1).and_then(|n| cx.back.get(&n)).map(|d2| d2.0 != d.0).unwrap_or(false)).map(|(a, _)| *a);
+                    if let Some(a) = pair {
+                        let l0 = guard(|| mems[0].load(a, 16)).ok().and_then(|x| x.ok()).flatten().map(|v| v.show());
+                        let l1 = guard(|| twin.load(a, 16)).ok().and_then(|x| x.ok()).flatten().map(|v| v.show());
+                        if l0.is_some() && l1.is_some() && l0 != l1 {
+                            fv::fail!("C08|eq|equal-but-loads-differ|opposite-byte-order", "a {} memory and a {} memory over the same backing compare equal, but load(0x{:x}, 16) = {:?} vs {:?}", if case.big_endian { "big-endian" } else { "little-endian" }, if case.big_endian { "little-endian" } else { "big-endian" }, a, l0, l1);
+                        }
+                    }
+                }
+                Ok(false) => obs.class("eq-false-across-byte-orders"),
+                Err(pi) => fv::fail!("C08|eq|panic", "comparing memories of opposite byte order panicked: {}", pi.msg),
+            }
+        }
+    }
+
     obs.class(V::KIND);
     obs.class(if case.big_endian { "big-endian" } else { "little-endian" });
     obs.class(if cx.has_backing { "with-backing" } else { "without-backing" });
@@ -1096,6 +1130,7 @@ fn main() -> std::process::ExitCode {
     ];
     // measured at bring-up (quick, seed 1, 150 000 cases), floors frozen at roughly half of it
     spec.floors = vec![
+        ("eq-false-across-byte-orders", 0.20),   // 0.500: every case with a backing
         ("load-over-page-crossing-store", 0.10), // measured 0.233
         ("load-over-cut-value", 0.25),           // 0.528
         ("load-three-way-overlap", 0.15),        // 0.300
